@@ -342,6 +342,24 @@ func (group *Group) delRtspPubSession(session *rtsp.PubSession) {
 func (group *Group) delPullSession(session base.IObject) {
 	Log.Debugf("[%s] [%s] del PullSession from group.", group.UniqueKey, session.UniqueKey())
 
+	// 只有这个pull session确实是当前group的输入时，才清理输入。
+	// 否则(比如pull建连期间已经有其他输入加入，这个pull session在加入group时被拒绝了)，只需要标记本次pull已结束，
+	// 不能影响group当前的输入
+	isIn := false
+	if s, ok := session.(*rtmp.PullSession); ok && s != nil && s == group.pullProxy.rtmpSession {
+		isIn = true
+	}
+	if s, ok := session.(*rtsp.PullSession); ok && s != nil && s == group.pullProxy.rtspSession {
+		isIn = true
+	}
+	if !isIn {
+		Log.Warnf("[%s] del pull session but not match. del session=%s", group.UniqueKey, session.UniqueKey())
+		if !group.hasPullSession() {
+			group.pullProxy.isSessionPulling = false
+		}
+		return
+	}
+
 	group.resetRelayPullSession()
 	group.delIn()
 }
